@@ -8,6 +8,7 @@ import (
 	"github.com/formancehq/ledger/verifh/ev"
 	"github.com/formancehq/ledger/verifh/lx"
 	"github.com/formancehq/ledger/verifh/reg"
+	"github.com/formancehq/ledger/verifh/sched"
 )
 
 type seqCheck struct {
@@ -21,6 +22,10 @@ type seqCheck struct {
 	need           []string
 	rule           string
 	restart        bool
+	// conc, when set, is a concurrent (K2) half run after the sequential one
+	conc           func() ([]*sched.Scenario, error)
+	concBoundQ     int
+	concBoundT     int
 }
 
 func registerSeq(sc seqCheck) {
@@ -68,6 +73,9 @@ func registerSeq(sc seqCheck) {
 		vacuous(r, total, sc.need...)
 		cov := seqCoverage(last, total, sc.rule)
 		cov["configurations"] = len(sc.configs)
+		if sc.conc != nil && !r.Expired() {
+			concPhase(r, cov, sc.conc, sc.concBoundQ, sc.concBoundT)
+		}
 		return r.Finish(cov, []string{pgsimAssumption})
 	})
 }
@@ -204,6 +212,7 @@ func init() {
 			lx.CheckCurrent(ctx, s.Ctrl, s.Ref, rep)
 		},
 		need: []string{"revert:ok", "revert:already_reverted", "revert:insufficient_funds", "revert:not_found"},
+		conc: c15Conc, concBoundQ: 2, concBoundT: -1,
 		rule: "every sequence of length<=depth over creates and reverts (plain, forced, at effective date, dry run; reverts of reverts through ids 2 and 3; second reverts); after each sequence ending in a revert: postings swapped and reversed, revert metadata mark, timestamp rule, exactly one new transaction, the original marked reverted once (ListTransactions/GetTransaction), second revert = already_reverted with an unchanged database, balances equal the fold without the pair",
 	})
 	registerSeq(seqCheck{
@@ -238,6 +247,7 @@ func init() {
 			lx.CheckCurrent(ctx, s.Ctrl, s.Ref, rep)
 		},
 		need: []string{"post:ok", "revert:ok", "script:ok", "txmeta:ok", "accmeta:ok", "post:insufficient_funds"},
+		conc: c08Conc, concBoundQ: 2, concBoundT: -1,
 		rule: "sequential half: every sequence of length<=depth over all write kinds plus dry runs and failing writes (every read API runs after each sequence, before the log count is taken); after each sequence the last operation appended exactly 1 log if it was a successful non-dry-run write and 0 otherwise, log ids strictly increase, and a ledger rebuilt from the log payloads alone (transactions, revert marks, accounts, metadata, volumes) equals what every read API returns. The concurrent half (ids vs commit order) is the K2 scenario set.",
 	})
 }
